@@ -662,14 +662,14 @@ func TestC13Prefixes(t *testing.T) {
 // the permissions and directory creation.
 func TestC13FileCacheModes(t *testing.T) {
 	h.FirstShardOnly(t)
-	rec := h.NewRec("C13", "filecache-modes", "FileCache under umask 0: directory created 0700, file written 0600, content read back byte-exact, for 6 payloads, two of them replacing a longer, world-readable file that is already there; each a non-trivial case")
+	rec := h.NewRec("C13", "filecache-modes", "FileCache under umask 0: directory created 0700, file written 0600, content read back byte-exact, for 7 payloads (one of 1.6 MB), two of them replacing a longer, world-readable file that is already there; each a non-trivial case")
 	defer rec.Flush()
 	old := syscall.Umask(0)
 	defer syscall.Umask(old)
 	dir := h.Scratch(t)
-	for i, payload := range [][]byte{[]byte(`{}`), []byte(`{"a":{"secret":{"Value":"eA==","Version":1},"lastAccess":"0"}}`), bytes.Repeat([]byte("x"), 70000), {}, []byte(`{"b":{}}`), []byte(`{}`)} {
+	for i, payload := range [][]byte{[]byte(`{}`), []byte(`{"a":{"secret":{"Value":"eA==","Version":1},"lastAccess":"0"}}`), bytes.Repeat([]byte("x"), 70000), {}, []byte(`{"b":{}}`), []byte(`{}`), bytes.Repeat([]byte("0123456789abcdef"), 100000)} {
 		p := filepath.Join(dir, fmt.Sprintf("sub%d", i), "deeper", "cache.json")
-		if i >= 4 {
+		if i == 4 || i == 5 {
 			// a file is already there, longer than the new contents and readable by everybody
 			os.MkdirAll(filepath.Dir(p), 0o700)
 			os.WriteFile(p, bytes.Repeat([]byte("old contents "), 20), 0o666)
